@@ -328,6 +328,21 @@ func (w *fkWorld) checkRead(f *fkFile, what string, off int64, buf, backing []by
 			r.Violate("read-error", "file %d size %d: %s at offset %d len %d failed without an injected fault: %v", f.id, f.size, what, off, L, err)
 		}
 		r.Count("probe_read_failed_under_fault")
+		// a failed read may deliver nothing, but the n bytes it does report are
+		// bytes a caller is entitled to use (io.Reader / io.ReaderAt): they must
+		// be the content at that position, never a buffer with holes
+		if n > 0 && int64(n) <= L {
+			r.Count("probe_read_failed_with_bytes")
+			if off+int64(n) > f.size {
+				r.Violate("read-past-end", "file %d size %d: failed %s at offset %d reported n=%d (err=%v)", f.id, f.size, what, off, n, err)
+			} else {
+				exp := make([]byte, n)
+				fkFill(exp, f.kind, f.cseed, off)
+				if d := fkFirstDiff(exp, buf[:n]); d >= 0 {
+					r.Violate("wrong-bytes-with-error", "file %d size %d kind %d enc=%v: %s at offset %d len %d failed (%v) and reported n=%d, but byte %d (file offset %d) is %#x, want %#x", f.id, f.size, f.kind, f.enc, what, off, L, err, n, d, off+int64(d), buf[d], exp[d])
+				}
+			}
+		}
 		return true
 	}
 	// err is nil or io.EOF: the bytes reported must be the content
